@@ -160,7 +160,7 @@ type sample struct {
 	AppNs     int64   `json:"app"` // UnixNano of leader_appended_at_time (0 = zero time)
 	ContactMs float64 `json:"contact_ms"`
 	Never     bool    `json:"never"`
-	AtNs      int64   `json:"at"` // monotonic-ish offset of the sample (ns since worker start)
+	AtNs      int64   `json:"at"`                 // monotonic-ish offset of the sample (ns since worker start)
 	LastLog   uint64  `json:"last_log,omitempty"` // raft's last_log_index statistic of the node
 }
 
